@@ -113,6 +113,29 @@ def r1_sibling_run_space(ctx):
     ok = len(fpc) == 1 and norm(expand(fp, fpc[0].args[0], depth=0)) in ("list(all_steps.values())", "all_steps.values()") and kw(fpc[0], "names") is not None and dotted(kw(fpc[0], "names")) == "params_names"
     ctx.check(ok, fp.qual + "#from_product", "from_product(list(all_steps.values()), names=params_names)" if ok else "product grid is not built over the ordered value lists", where=fp, node=fpc[0] if fpc else fp.node)
     ctx.trust("pd.MultiIndex.from_product enumerates in argument order")
+    product_grid_labels(ctx)
+
+
+def product_grid_labels(ctx):
+    """ProductMode.create_params returns `pd.Series(list(index), index=index).to_xarray()` for the
+    from_product index: values and labels come from one and the same index object (pandas aligns
+    them), so the entry labelled with given values holds exactly those values whatever the order of
+    the lists.  Any hand-made labelling (levels, sorted uniques, reshape) is reported."""
+    fp = ctx.func(f"{M}:ProductMode.create_params")
+    rets = [r for r in returns_of(fp) if r.value is not None]
+    ok, why = False, "the product grid is not returned"
+    if len(rets) == 1:
+        v = expand(fp, rets[0].value, _seen={"all_steps", "params_names"})
+        why = f"the product grid is {norm(v)[:120]}"
+        if isinstance(v, ast.Call) and isinstance(v.func, ast.Attribute) and v.func.attr == "to_xarray" and not v.args and isinstance(v.func.value, ast.Call) and call_name(v.func.value).endswith("Series"):
+            sr = v.func.value
+            data = sr.args[0] if sr.args else kw(sr, "data")
+            idx = kw(sr, "index")
+            while isinstance(data, ast.Call) and call_name(data) in ("list", "tuple") and len(data.args) == 1:
+                data = data.args[0]
+            ok = data is not None and idx is not None and norm(data) == norm(idx) and isinstance(idx, ast.Call) and call_name(idx).endswith("from_product")
+            why = "values and labels come from the same from_product index (Series(list(index), index=index).to_xarray())" if ok else f"values {norm(data)[:60]} and labels {norm(idx)[:60]} are not one and the same from_product index"
+    ctx.check(ok, fp.qual + "#labels", why if ok else why + ": labels (e.g. sorted index levels) can disagree with the declaration order of the values", where=fp, node=rets[0] if rets else fp.node)
 
 
 ALLOWED_EFFECTS = {
